@@ -141,7 +141,7 @@ static int do_line(char* line) {
   if (!strcmp(w[0], "init") && n == 3 && !in_cb) {
     int fd;
     dispose();
-    if (loop->emfile_fd == -1) loop->emfile_fd = uv__open_cloexec("/", O_RDONLY);
+    if (loop->emfile_fd == -1) { int e = uv__open_cloexec("/", O_RDONLY); if (e >= 0) loop->emfile_fd = e; }
     srv = malloc(sizeof *srv);
     uv_pipe_init(loop, srv, atoi(w[2]));
     fd = socket(AF_UNIX, SOCK_STREAM, 0);
@@ -166,13 +166,10 @@ static int do_line(char* line) {
       fail_open_root = !atoi(w[4]);
     } else { printf("bad-op\n"); return 0; }
     if (role_listen && !srv_closed && !in_cb && uv__io_active(&srv->io_watcher, POLLIN)) {
-      int was = 0;
       uv__server_io(loop, &srv->io_watcher, POLLIN);   /* conn_cb prints the post-accept state and consumes lines up to ioend */
-      (void) was;
-      fail_open_root = 0;
-      if (acc_script[0] >= 0) show(0);   /* state after uv__server_io returned (= after ioend) */
-      else show(0);
-    } else show(0);
+    }
+    fail_open_root = 0;
+    show(0);   /* state after uv__server_io returned (= after ioend), or unchanged when the event is impossible */
   } else if (!strcmp(w[0], "ioend") && n == 1) {
     if (in_cb) return 1;
     show(0);
@@ -201,6 +198,7 @@ static int do_line(char* line) {
 
 int main(void) {
   char line[4096];
+  setvbuf(stdout, NULL, _IOLBF, 0);
   uv_replace_allocator(my_malloc, my_realloc, my_calloc, my_free);
   loop = uv_default_loop();
   while (fgets(line, sizeof line, stdin)) do_line(line);
